@@ -1,1 +1,1222 @@
-fn main() {}
+//! C19 harness: the real `CardanoDatabaseClient::download_unpack` on honest and hostile archives
+//! (tar + zstd files served through `file://` locations), manifests and pre-existing target directories.
+//!  K: Ok/Err and the canonical recursive listing of the case directory afterwards vs the Lean model
+//!     `Restore.Full.run`.
+//!  S (evaluated here on the real listing): every file or link that is new (or changed) after the call is
+//!     a bootstrap marker, an immutable trio file of the requested range, or a path listed - with the hash
+//!     of the content READ THROUGH the restored path - in a manifest whose signature verifies under the
+//!     configured key; nothing stays of the temporary ancillary directory.
+use hclient::{name_ok, sha256_hex, Ids, Scratch};
+use hutil::{Args, Rng, Sink};
+use mithril_cardano_node_internal_database::entities::AncillaryFilesManifest;
+use mithril_client::cardano_database_client::{DownloadUnpackOptions, ImmutableFileRange};
+use mithril_client::{CardanoDatabaseSnapshot, Client, ClientBuilder};
+use mithril_common::crypto_helper::{ManifestSigner, ManifestVerifier};
+use mithril_common::entities::{
+    AncillaryLocation, CardanoDbBeacon, CompressionAlgorithm, ImmutablesLocation, MultiFilesUri, TemplateUri,
+};
+use mithril_common::messages::{AncillaryMessagePart, ImmutablesMessagePart};
+use mithril_common::test::double::{fake_keys, Dummy};
+use std::collections::{BTreeMap, BTreeSet};
+use std::path::{Path, PathBuf};
+
+const EXTS: [&str; 3] = ["chunk", "primary", "secondary"];
+const MANIFEST: &str = "ancillary_manifest.json";
+
+fn trio_name(n: u64, e: usize) -> String {
+    format!("{:05}.{}", n, EXTS[e])
+}
+
+#[derive(Clone, Debug)]
+enum R {
+    Full,
+    From(u64),
+    Range(u64, u64),
+    UpTo(u64),
+}
+
+impl R {
+    fn real(&self) -> ImmutableFileRange {
+        match self {
+            R::Full => ImmutableFileRange::Full,
+            R::From(a) => ImmutableFileRange::From(*a),
+            R::Range(a, b) => ImmutableFileRange::Range(*a, *b),
+            R::UpTo(b) => ImmutableFileRange::UpTo(*b),
+        }
+    }
+    fn show(&self) -> String {
+        match self {
+            R::Full => "(full)".into(),
+            R::From(a) => format!("(from,{})", a),
+            R::Range(a, b) => format!("(range,{},{})", a, b),
+            R::UpTo(b) => format!("(upto,{})", b),
+        }
+    }
+    /// the range as the property reads it
+    fn bounds(&self, last: u64) -> Option<(u64, u64)> {
+        match *self {
+            R::Full => Some((0, last)),
+            R::From(a) if a <= last => Some((a, last)),
+            R::Range(a, b) if a <= b && b <= last => Some((a, b)),
+            R::UpTo(b) if b <= last => Some((0, b)),
+            _ => None,
+        }
+    }
+}
+
+#[derive(Clone, Debug)]
+enum EK {
+    File(Vec<u8>),
+    Dir,
+    Symlink(String),
+    Hardlink(String),
+}
+
+#[derive(Clone, Debug)]
+struct Ent {
+    path: String, // raw bytes written into the header
+    kind: EK,
+}
+
+#[derive(Clone, Debug)]
+struct Loc {
+    present: bool,
+    intact: bool,
+    entries: Vec<Ent>,
+}
+
+#[derive(Clone, Debug)]
+enum Pre {
+    Dir(String),
+    File(String, Vec<u8>),
+    Link(String, String),
+}
+
+#[derive(Clone, Debug)]
+struct Case {
+    pre: Vec<Pre>, // paths relative to the case root (`db/...`, `out/...`)
+    range: R,
+    last: u64,
+    allow_override: bool,
+    include_ancillary: bool,
+    verifier_set: bool,
+    network: String,
+    imm: BTreeMap<u64, Vec<Loc>>,
+    anc: Vec<Loc>,
+    parallel: usize,
+}
+
+fn file(p: &str, c: &[u8]) -> Ent {
+    Ent { path: p.to_string(), kind: EK::File(c.to_vec()) }
+}
+fn symlink(p: &str, t: &str) -> Ent {
+    Ent { path: p.to_string(), kind: EK::Symlink(t.to_string()) }
+}
+fn hardlink(p: &str, t: &str) -> Ent {
+    Ent { path: p.to_string(), kind: EK::Hardlink(t.to_string()) }
+}
+fn dir(p: &str) -> Ent {
+    Ent { path: p.to_string(), kind: EK::Dir }
+}
+
+/// writes the header bytes itself: `tar::Builder::append_data` refuses `..` and absolute paths
+fn write_archive(path: &Path, loc: &Loc) {
+    let f = std::fs::File::create(path).unwrap();
+    let enc = zstd::Encoder::new(f, 1).unwrap();
+    let mut b = tar::Builder::new(enc);
+    for e in &loc.entries {
+        let mut h = tar::Header::new_gnu();
+        {
+            let g = h.as_gnu_mut().unwrap();
+            let pb = e.path.as_bytes();
+            assert!(pb.len() < 100, "path too long");
+            g.name[..pb.len()].copy_from_slice(pb);
+            if let EK::Symlink(t) | EK::Hardlink(t) = &e.kind {
+                let tb = t.as_bytes();
+                assert!(tb.len() < 100);
+                g.linkname[..tb.len()].copy_from_slice(tb);
+            }
+        }
+        h.set_mtime(1_700_000_000);
+        h.set_uid(0);
+        h.set_gid(0);
+        let data: &[u8] = match &e.kind {
+            EK::File(c) => {
+                h.set_entry_type(tar::EntryType::Regular);
+                h.set_mode(0o644);
+                h.set_size(c.len() as u64);
+                c
+            }
+            EK::Dir => {
+                h.set_entry_type(tar::EntryType::Directory);
+                h.set_mode(0o755);
+                h.set_size(0);
+                &[]
+            }
+            EK::Symlink(_) => {
+                h.set_entry_type(tar::EntryType::Symlink);
+                h.set_mode(0o777);
+                h.set_size(0);
+                &[]
+            }
+            EK::Hardlink(_) => {
+                h.set_entry_type(tar::EntryType::Link);
+                h.set_mode(0o644);
+                h.set_size(0);
+                &[]
+            }
+        };
+        h.set_cksum();
+        b.append(&h, data).unwrap();
+    }
+    let mut enc = b.into_inner().unwrap_or_else(|_| panic!("tar"));
+    if !loc.intact {
+        // a block that is no header: the tar stream breaks here, the zstd stream stays valid
+        use std::io::Write;
+        enc.write_all(&[0xffu8; 512]).unwrap();
+        enc.write_all(&[0x41u8; 512]).unwrap();
+    }
+    enc.finish().unwrap();
+}
+
+/// canonical text of a link target / path: empty and `.` components dropped
+fn norm_text(s: &str) -> String {
+    let abs = s.starts_with('/');
+    let parts: Vec<&str> = s.split('/').filter(|c| !c.is_empty() && *c != ".").collect();
+    format!("{}{}", if abs { "/" } else { "" }, parts.join("/"))
+}
+
+#[derive(Clone, Debug, PartialEq)]
+enum Node {
+    Dir,
+    File(String), // sha256 of the content
+    Link(String), // target text
+}
+
+/// recursive listing of `root` (relative paths with `/`), `ancillary-*` directly under `db` renamed
+fn listing(root: &Path) -> BTreeMap<String, Node> {
+    fn walk(d: &Path, rel: &str, out: &mut BTreeMap<String, Node>) {
+        let mut names: Vec<_> = match std::fs::read_dir(d) {
+            Ok(rd) => rd.flatten().map(|e| e.file_name().to_string_lossy().to_string()).collect(),
+            Err(_) => return,
+        };
+        names.sort();
+        for n in names {
+            let p = d.join(&n);
+            let shown = if rel == "db" && n.starts_with("ancillary-") { "ancillary-TMP".to_string() } else { n.clone() };
+            let r = if rel.is_empty() { shown } else { format!("{}/{}", rel, shown) };
+            let md = std::fs::symlink_metadata(&p).unwrap();
+            if md.file_type().is_symlink() {
+                out.insert(r, Node::Link(norm_text(&std::fs::read_link(&p).unwrap().to_string_lossy())));
+            } else if md.is_dir() {
+                out.insert(r.clone(), Node::Dir);
+                walk(&p, &r, out);
+            } else {
+                out.insert(r, Node::File(sha256_hex(&std::fs::read(&p).unwrap())));
+            }
+        }
+    }
+    let mut out = BTreeMap::new();
+    walk(root, "", &mut out);
+    out
+}
+
+fn show_listing(l: &BTreeMap<String, Node>, ids: &mut Ids) -> String {
+    let mut v = vec![];
+    for (p, n) in l {
+        assert!(name_ok(p), "{}", p);
+        v.push(match n {
+            Node::Dir => format!("({},d)", p),
+            Node::File(h) => format!("({},f,{})", p, ids.id(h)),
+            Node::Link(t) => format!("({},l,{})", p, t),
+        });
+    }
+    format!("[{}]", v.join(","))
+}
+
+fn show_loc(l: &Loc, ids: &mut Ids) -> String {
+    if !l.present {
+        return "(0)".into();
+    }
+    // rank of the raw path among the directory entries (tar applies directories by descending path bytes)
+    let mut dir_paths: Vec<&[u8]> = l.entries.iter().filter(|e| matches!(e.kind, EK::Dir)).map(|e| e.path.as_bytes()).collect();
+    dir_paths.sort();
+    dir_paths.dedup();
+    let mut v = vec![];
+    for e in &l.entries {
+        assert!(name_ok(&e.path), "{}", e.path);
+        v.push(match &e.kind {
+            EK::File(c) => format!("({},f,{})", e.path, ids.id(&sha256_hex(c))),
+            EK::Dir => format!("({},d,{})", e.path, dir_paths.iter().position(|p| *p == e.path.as_bytes()).unwrap()),
+            EK::Symlink(t) => format!("({},s,{})", e.path, t),
+            EK::Hardlink(t) => format!("({},h,{})", e.path, t),
+        });
+    }
+    format!("(1,{},[{}])", l.intact as u8, v.join(","))
+}
+
+struct Keys {
+    genuine: ManifestSigner,
+    other: ManifestSigner,
+}
+
+#[derive(Clone, Debug)]
+enum SigKind {
+    Genuine,
+    OtherKey,
+    Altered,
+    Missing,
+}
+
+fn manifest_json(keys: &Keys, entries: &[(String, String)], sig: SigKind) -> Vec<u8> {
+    let data: BTreeMap<PathBuf, String> = entries.iter().map(|(p, h)| (PathBuf::from(p), h.clone())).collect();
+    let mut m = AncillaryFilesManifest::new_without_signature(data);
+    match sig {
+        SigKind::Genuine => m.set_signature(keys.genuine.sign(&m.compute_hash())),
+        SigKind::OtherKey => m.set_signature(keys.other.sign(&m.compute_hash())),
+        SigKind::Altered => {
+            let mut h = m.compute_hash();
+            h[0] ^= 1;
+            m.set_signature(keys.genuine.sign(&h))
+        }
+        SigKind::Missing => {}
+    }
+    serde_json::to_vec(&m).unwrap()
+}
+
+/// what the model is told about a file content that may be read as a manifest: parsed with the real
+/// type, signature checked with the real verifier (crypto is an oracle for the model)
+fn manifest_table(keys: &Keys, case: &Case, pre_files: &[Vec<u8>], ids: &mut Ids) -> (String, Vec<(BTreeMap<String, String>, bool)>) {
+    let verifier = ManifestVerifier::from_verification_key(keys.genuine.verification_key());
+    let mut seen = BTreeSet::new();
+    let mut rows = vec![];
+    let mut parsed = vec![];
+    let mut contents: Vec<&Vec<u8>> = vec![];
+    for l in case.anc.iter().chain(case.imm.values().flatten()) {
+        for e in &l.entries {
+            if let EK::File(c) = &e.kind {
+                contents.push(c);
+            }
+        }
+    }
+    contents.extend(pre_files.iter());
+    for c in contents {
+        if c.first() != Some(&b'{') {
+            continue;
+        }
+        let h = sha256_hex(c);
+        if !seen.insert(h.clone()) {
+            continue;
+        }
+        match serde_json::from_slice::<AncillaryFilesManifest>(c) {
+            Err(_) => rows.push(format!("({},bad)", ids.id(&h))),
+            Ok(m) => {
+                let sig = match m.signature() {
+                    None => "nosig",
+                    Some(s) => {
+                        if verifier.verify(&m.compute_hash(), &s).is_ok() {
+                            "ok"
+                        } else {
+                            "badsig"
+                        }
+                    }
+                };
+                let es: Vec<String> = m
+                    .signable_manifest
+                    .data
+                    .iter()
+                    .map(|(p, v)| {
+                        let ps = p.to_string_lossy().to_string();
+                        assert!(name_ok(&ps));
+                        format!("({},{})", ps, ids.id(v))
+                    })
+                    .collect();
+                rows.push(format!("({},{},[{}])", ids.id(&h), sig, es.join(",")));
+                parsed.push((
+                    m.signable_manifest.data.iter().map(|(p, v)| (norm_text(&p.to_string_lossy()), v.clone())).collect(),
+                    sig == "ok",
+                ));
+            }
+        }
+    }
+    (format!("[{}]", rows.join(",")), parsed)
+}
+
+struct Ctx {
+    rt: tokio::runtime::Runtime,
+    with_key: Client,
+    without_key: Client,
+    scratch: Scratch,
+    keys: Keys,
+}
+
+fn magic_of(network: &str) -> Option<&'static str> {
+    match network {
+        "mainnet" => Some("764824073"),
+        "preview" => Some("2"),
+        "preprod" => Some("1"),
+        "devnet" => Some("42"),
+        _ => None,
+    }
+}
+
+struct Outcome {
+    ok: bool,
+    pre: BTreeMap<String, Node>,
+    post: BTreeMap<String, Node>,
+    sfails: Vec<(String, String)>,
+    req: String,
+}
+
+fn materialise(root: &Path, pre: &[Pre]) {
+    for p in pre {
+        match p {
+            Pre::Dir(d) => std::fs::create_dir_all(root.join(d)).unwrap(),
+            Pre::File(f, c) => {
+                let q = root.join(f);
+                std::fs::create_dir_all(q.parent().unwrap()).unwrap();
+                std::fs::write(q, c).unwrap();
+            }
+            Pre::Link(l, t) => {
+                let q = root.join(l);
+                std::fs::create_dir_all(q.parent().unwrap()).unwrap();
+                std::os::unix::fs::symlink(t, q).unwrap();
+            }
+        }
+    }
+}
+
+/// tar's view of an entry path: None = skipped (`..`), else the components below the destination
+fn tar_norm(p: &str) -> Option<Vec<String>> {
+    let mut out = vec![];
+    for c in p.split('/') {
+        match c {
+            "" | "." => {}
+            ".." => return None,
+            x => out.push(x.to_string()),
+        }
+    }
+    Some(out)
+}
+
+fn is_trio_name(n: &str) -> Option<u64> {
+    let (stem, ext) = n.split_once('.')?;
+    if stem.len() == 5 && stem.bytes().all(|b| b.is_ascii_digit()) && EXTS.contains(&ext) {
+        stem.parse().ok()
+    } else {
+        None
+    }
+}
+
+/// the specification, evaluated on the real listings
+fn spec(case: &Case, ok: bool, pre: &BTreeMap<String, Node>, post: &BTreeMap<String, Node>, root: &Path, manifests: &[(BTreeMap<String, String>, bool)]) -> Vec<(String, String)> {
+    let mut fails = vec![];
+    let bounds = case.range.bounds(case.last);
+    // immutable-archive entries as tar places them (lexically)
+    let mut imm_entries: Vec<(Vec<String>, &EK)> = vec![];
+    for l in case.imm.values().flatten() {
+        for e in &l.entries {
+            if let Some(c) = tar_norm(&e.path) {
+                if !c.is_empty() {
+                    imm_entries.push((c, &e.kind));
+                }
+            }
+        }
+    }
+    let foreign = |c: &Vec<String>, k: &EK| c[0] != "immutable" || (c.len() == 1 && !matches!(k, EK::Dir));
+    let has_foreign = imm_entries.iter().any(|(c, k)| foreign(c, k));
+    let foreign_link_prefix = |rel: &str| {
+        imm_entries.iter().any(|(c, k)| {
+            foreign(c, k) && matches!(k, EK::Symlink(_)) && {
+                let pre = c.join("/");
+                rel == pre || rel.starts_with(&format!("{}/", pre))
+            }
+        })
+    };
+    let mut anc_entries: Vec<(String, &EK)> = vec![];
+    for l in &case.anc {
+        for e in &l.entries {
+            if let Some(c) = tar_norm(&e.path) {
+                anc_entries.push((c.join("/"), &e.kind));
+            }
+        }
+    }
+    // vouched paths: listed in a manifest whose signature verifies under the configured key
+    let mut vouched: BTreeMap<String, BTreeSet<String>> = BTreeMap::new();
+    if case.include_ancillary && case.verifier_set {
+        for (m, sig_ok) in manifests {
+            if *sig_ok {
+                for (p, h) in m {
+                    vouched.entry(p.clone()).or_default().insert(h.clone());
+                }
+            }
+        }
+    }
+    for (p, node) in post {
+        if matches!(node, Node::Dir) || pre.get(p) == Some(node) {
+            continue;
+        }
+        let abs = root.join(p);
+        // (a) bootstrap markers
+        if p == "db/clean" && *node == Node::File(sha256_hex(b"")) {
+            continue;
+        }
+        if p == "db/protocolMagicId" {
+            if let (Some(m), Node::File(h)) = (magic_of(&case.network), node) {
+                if *h == sha256_hex(m.as_bytes()) {
+                    continue;
+                }
+            }
+        }
+        let rel = p.strip_prefix("db/").map(|s| s.to_string());
+        // (b) immutable trio files of the requested range
+        if let (Some(rel), Some((lo, hi)), Node::File(_)) = (&rel, bounds, node) {
+            if let Some(name) = rel.strip_prefix("immutable/") {
+                if let Some(n) = is_trio_name(name) {
+                    if lo <= n && n <= hi {
+                        continue;
+                    }
+                }
+            }
+        }
+        // (c) vouched ancillary files, judged on the content read through the restored path
+        if let Some(rel) = &rel {
+            if let Some(hs) = vouched.get(rel) {
+                let read = std::fs::read(&abs).map(|c| sha256_hex(&c));
+                match read {
+                    Ok(h) if hs.contains(&h) => continue,
+                    other => {
+                        let class = if foreign_link_prefix(rel) { "foreign-entry" } else { "vouched-content-mismatch" };
+                        fails.push((class.to_string(), format!("{} is listed in a verified manifest but what is read through the restored path is {:?} ({:?})", p, other.ok(), node)));
+                        continue;
+                    }
+                }
+            }
+        }
+        // not allowed: classify
+        let class: &str = if p.starts_with("db/ancillary-TMP") {
+            "ancillary-tmp-left"
+        } else if let Some(rest) = rel.as_ref().and_then(|r| r.strip_prefix("immutable/")) {
+            let first = rest.split('/').next().unwrap();
+            let upper = if case.include_ancillary { case.last + 1 } else { case.last };
+            let expected_name = is_trio_name(first).map(|n| n <= upper).unwrap_or(false)
+                || pre.contains_key(&format!("db/immutable/{}", first));
+            if !expected_name {
+                "cleanup-missed"
+            } else if rest.contains('/') || !matches!(node, Node::File(_)) {
+                "immutable-entry-kept-by-name"
+            } else if is_trio_name(first).is_some() {
+                "trio-outside-range"
+            } else {
+                "immutable-entry-kept-by-name"
+            }
+        } else {
+            // outside `immutable/` (possibly outside the target directory)
+            let from_anc = rel.as_ref().map(|r| {
+                anc_entries.iter().any(|(c, k)| c == r && match (k, node) {
+                    (EK::File(c), Node::File(h)) => sha256_hex(c) == *h,
+                    (EK::Symlink(t), Node::Link(l)) => norm_text(t) == *l,
+                    (EK::Hardlink(_), _) => true,
+                    _ => false,
+                }) && !imm_entries.iter().any(|(c, _)| c.join("/") == *r)
+            }).unwrap_or(false);
+            if from_anc {
+                "ancillary-kept-unvouched"
+            } else if has_foreign {
+                "foreign-entry"
+            } else {
+                "unexplained-new-file"
+            }
+        };
+        fails.push((class.to_string(), format!("{} ({:?}) is new after the call (result {}) and is neither a marker, nor a trio file of {:?}, nor vouched", p, node, if ok { "Ok" } else { "Err" }, case.range)));
+    }
+    fails
+}
+
+fn execute(ctx: &Ctx, case: &Case, idx: usize) -> Outcome {
+    let case_dir = ctx.scratch.case_dir(idx);
+    let root = case_dir.join("root");
+    let arch = case_dir.join("arch");
+    std::fs::create_dir_all(root.join("db")).unwrap();
+    std::fs::create_dir_all(root.join("out")).unwrap();
+    std::fs::create_dir_all(&arch).unwrap();
+    materialise(&root, &case.pre);
+    // archives: location k of immutable n = arch/loc{k}/{n:05}.tar.zst
+    let max_locs = case.imm.values().map(|v| v.len()).max().unwrap_or(0);
+    for k in 0..max_locs.max(1) {
+        std::fs::create_dir_all(arch.join(format!("loc{}", k))).unwrap();
+    }
+    for (n, locs) in &case.imm {
+        for (k, l) in locs.iter().enumerate() {
+            if l.present {
+                write_archive(&arch.join(format!("loc{}/{:05}.tar.zst", k, n)), l);
+            }
+        }
+    }
+    for (k, l) in case.anc.iter().enumerate() {
+        if l.present {
+            write_archive(&arch.join(format!("ancillary{}.tar.zst", k)), l);
+        }
+    }
+    let mut snap = CardanoDatabaseSnapshot::dummy();
+    snap.beacon = CardanoDbBeacon::new(1, case.last);
+    snap.network = case.network.clone();
+    // `sanitized_locations` + sort: the order of trial is the order of the URIs as text; loc0 < loc1 < …
+    snap.immutables = ImmutablesMessagePart {
+        average_size_uncompressed: 10,
+        locations: (0..max_locs.max(1))
+            .map(|k| ImmutablesLocation::CloudStorage {
+                uri: MultiFilesUri::Template(TemplateUri(format!("file://{}/loc{}/{{immutable_file_number}}.tar.zst", arch.display(), k))),
+                compression_algorithm: Some(CompressionAlgorithm::Zstandard),
+            })
+            .collect(),
+    };
+    snap.ancillary = AncillaryMessagePart {
+        size_uncompressed: 10,
+        locations: (0..case.anc.len().max(1))
+            .map(|k| AncillaryLocation::CloudStorage {
+                uri: format!("file://{}/ancillary{}.tar.zst", arch.display(), k),
+                compression_algorithm: Some(CompressionAlgorithm::Zstandard),
+            })
+            .collect(),
+    };
+    let pre = listing(&root);
+    let pre_files: Vec<Vec<u8>> = case.pre.iter().filter_map(|p| if let Pre::File(_, c) = p { Some(c.clone()) } else { None }).collect();
+    let client = if case.verifier_set { &ctx.with_key } else { &ctx.without_key };
+    let dbc = client.cardano_database_v2();
+    let opts = DownloadUnpackOptions { allow_override: case.allow_override, include_ancillary: case.include_ancillary, max_parallel_downloads: case.parallel };
+    let res = ctx.rt.block_on(dbc.download_unpack(&snap, &case.range.real(), &root.join("db"), opts));
+    let ok = res.is_ok();
+    let post = listing(&root);
+    // request line
+    let mut ids = Ids::default();
+    let empty = ids.id(&sha256_hex(b""));
+    let magic = magic_of(&case.network).map(|m| ids.id(&sha256_hex(m.as_bytes()))).unwrap_or_else(|| "none".into());
+    let (mans, parsed) = manifest_table(&ctx.keys, case, &pre_files, &mut ids);
+    let imm_s: Vec<String> = case.imm.iter().map(|(n, locs)| format!("({},[{}])", n, locs.iter().map(|l| show_loc(l, &mut ids)).collect::<Vec<_>>().join(","))).collect();
+    let anc_s: Vec<String> = case.anc.iter().map(|l| show_loc(l, &mut ids)).collect();
+    let req = format!(
+        "c19.run pre={} range={} last={} override={} anc={} verifier={} fixed=1 imm=[{}] ancl=[{}] manifests={} empty={} magic={}",
+        show_listing(&pre, &mut ids),
+        case.range.show(),
+        case.last,
+        case.allow_override as u8,
+        case.include_ancillary as u8,
+        case.verifier_set as u8,
+        imm_s.join(","),
+        anc_s.join(","),
+        mans,
+        empty,
+        magic
+    );
+    let imp = format!("{} {}", if ok { "ok" } else { "err" }, show_listing(&post, &mut ids));
+    let sfails = spec(case, ok, &pre, &post, &root, &parsed);
+    let _ = hclient::remove_all(&case_dir);
+    Outcome { ok, pre, post, sfails, req: format!("{}\t{}", req, imp) }
+}
+
+fn emit(ctx: &Ctx, sink: &mut Sink, tag: &str, case: &Case) -> Option<Outcome> {
+    if !sink.wanted() {
+        sink.skip();
+        return None;
+    }
+    let o = execute(ctx, case, sink.next_index());
+    let (req, imp) = o.req.split_once('\t').unwrap();
+    let i = sink.case(tag, req, imp);
+    for (c, w) in &o.sfails {
+        sink.sfail(i, c, w, &format!("{} case={:?}", req, short_case(case)));
+    }
+    Some(o)
+}
+
+fn short_case(c: &Case) -> String {
+    let mut s = format!("{:?}", c);
+    if s.len() > 3000 {
+        s.truncate(3000);
+    }
+    s
+}
+
+// ---------------------------------------------------------------- generators
+
+fn small(rng: &mut Rng) -> Vec<u8> {
+    let n = rng.range(0, 40) as usize;
+    rng.bytes(n)
+}
+
+fn honest_imm(rng: &mut Rng, n: u64) -> Loc {
+    let mut entries: Vec<Ent> = (0..3).map(|e| file(&format!("immutable/{}", trio_name(n, e)), &small(rng))).collect();
+    if rng.chance(1, 4) {
+        entries.insert(0, dir("immutable"));
+    }
+    if rng.chance(1, 4) {
+        rng.shuffle(&mut entries);
+    }
+    Loc { present: true, intact: true, entries }
+}
+
+/// an honest ancillary archive: files + manifest (entries (path, hex hash))
+fn honest_anc(rng: &mut Rng, keys: &Keys, last: u64) -> (Loc, Vec<(String, String)>) {
+    let slot = 100 + rng.below(900);
+    let mut files: Vec<(String, Vec<u8>)> = vec![];
+    if rng.bool() {
+        files.push((format!("ledger/{}", slot), small(rng)));
+    } else {
+        files.push((format!("ledger/{}/meta", slot), small(rng)));
+        files.push((format!("ledger/{}/state", slot), small(rng)));
+        files.push((format!("ledger/{}/tables/tvar", slot), small(rng)));
+    }
+    if rng.chance(2, 3) {
+        files.push(("volatile/blocks-0.dat".to_string(), small(rng)));
+    }
+    if rng.chance(2, 3) {
+        for e in 0..3 {
+            files.push((format!("immutable/{}", trio_name(last + 1, e)), small(rng)));
+        }
+    }
+    let man: Vec<(String, String)> = files.iter().map(|(p, c)| (p.clone(), sha256_hex(c))).collect();
+    let mut entries = vec![file(MANIFEST, &manifest_json(keys, &man, SigKind::Genuine))];
+    for (p, c) in &files {
+        entries.push(file(p, c));
+    }
+    if rng.chance(1, 3) {
+        rng.shuffle(&mut entries);
+    }
+    (Loc { present: true, intact: true, entries }, man)
+}
+
+fn gen_range(rng: &mut Rng, last: u64, anc: bool) -> R {
+    if anc && rng.chance(5, 6) {
+        // with ancillary the range has to end at the beacon
+        return match rng.below(4) {
+            0 => R::Full,
+            1 => R::From(rng.range(0, last)),
+            2 => R::Range(rng.range(0, last), last),
+            _ => R::UpTo(last),
+        };
+    }
+    match rng.below(10) {
+        0 => R::Full,
+        1 | 2 => R::From(rng.range(0, last)),
+        3 | 4 => {
+            let a = rng.range(0, last);
+            R::Range(a, rng.range(a, last))
+        }
+        5 | 6 => R::UpTo(rng.range(0, last)),
+        7 => R::From(last + 1),
+        8 => R::Range(rng.range(0, last), last + 1),
+        _ => R::UpTo(last + 1 + rng.below(2)),
+    }
+}
+
+fn gen_pre(rng: &mut Rng, last: u64) -> Vec<Pre> {
+    let mut pre = vec![];
+    match rng.below(10) {
+        0..=3 => {}
+        4 | 5 => {
+            // an older database
+            for n in 0..rng.range(0, last) {
+                for e in 0..3 {
+                    pre.push(Pre::File(format!("db/immutable/{}", trio_name(n, e)), small(rng)));
+                }
+            }
+            if rng.bool() {
+                pre.push(Pre::File("db/immutable/user-notes.txt".into(), b"mine".to_vec()));
+            }
+            if rng.bool() {
+                pre.push(Pre::File("db/immutable/userdir/keep".into(), b"mine too".to_vec()));
+            }
+            if rng.bool() {
+                pre.push(Pre::File("db/ledger/77".into(), small(rng)));
+            }
+            if rng.bool() {
+                pre.push(Pre::File("db/clean".into(), b"old".to_vec()));
+            }
+        }
+        6 => pre.push(Pre::Dir("db/immutable".into())),
+        7 => pre.push(Pre::File("db/my-own-file".into(), b"keep me".to_vec())),
+        8 => {
+            pre.push(Pre::Dir("db/volatile".into()));
+            pre.push(Pre::File("db/ledger/55".into(), small(rng)));
+        }
+        _ => pre.push(Pre::Link("db/volatile".into(), "../out".into())),
+    }
+    pre
+}
+
+/// pre-existing shapes that make a step fail
+fn gen_fault(rng: &mut Rng, man: &[(String, String)]) -> Vec<Pre> {
+    let mut pre = vec![];
+    match rng.below(9) {
+        0 => {
+            if let Some((p, _)) = man.first() {
+                pre.push(Pre::File(format!("db/{}/blocker", p), b"x".to_vec())); // destination is a non-empty directory
+            }
+        }
+        1 => {
+            if let Some((p, _)) = man.last() {
+                pre.push(Pre::Dir(format!("db/{}", p))); // destination is an empty directory
+            }
+        }
+        2 => pre.push(Pre::File("db/ledger".into(), b"not a directory".to_vec())),
+        3 => pre.push(Pre::File("db/immutable".into(), b"not a directory".to_vec())),
+        4 => pre.push(Pre::Dir("db/clean".into())),
+        5 => pre.push(Pre::Dir("db/protocolMagicId".into())),
+        6 => pre.push(Pre::Link("db/ledger".into(), "nowhere".into())), // dangling
+        7 => pre.push(Pre::Dir("db/immutable/00001.chunk".into())),   // a file entry lands on a directory
+        _ => pre.push(Pre::Link("db/immutable".into(), "../out".into())),
+    }
+    pre
+}
+
+fn hostile_imm_entries(rng: &mut Rng, lo: u64, hi: u64, last: u64) -> Vec<Ent> {
+    let c = small(rng);
+    match rng.below(26) {
+        0 => vec![file("ledger/123456", &c)],
+        1 => vec![file("volatile/blocks-0.dat", &c), file("ledger/9/state", &c)],
+        2 => vec![file("clean", b"not empty")],
+        3 => vec![file("protocolMagicId", b"666")],
+        4 => vec![file("payload/state", b"HOSTILE")],
+        5 => vec![file("immutable/sub/deep/evil.bin", &c)],
+        6 => vec![file(&format!("immutable/{}/evil.bin", trio_name(*rng.pick(&[0, lo, hi, last + 1]), 0)), &c)],
+        7 => vec![file(&format!("immutable/{}", trio_name(lo.saturating_sub(1), 1)), &c)],
+        8 => vec![file(&format!("immutable/{}", trio_name(hi + 1, 2)), &c)],
+        9 => vec![file(&format!("immutable/{}", trio_name(last + 1 + rng.below(2), 0)), &c)],
+        10 => vec![file(&format!("immutable/{}", trio_name(0, 0)), &c)],
+        11 => vec![file("immutable/junk", &c), file(&format!("immutable/{}.bak", trio_name(lo, 0)), &c)],
+        12 => vec![file("/abs/evil", &c)],
+        13 => vec![file("../escape", &c), file("immutable/../../escape2", &c)],
+        14 => vec![file(&format!("./immutable/./{}", trio_name(hi, 0)), &c)],
+        15 => vec![symlink("ledger", "../out")],
+        16 => vec![symlink("clean", "ledger/evil")],
+        17 => vec![symlink(&format!("immutable/{}", trio_name(*rng.pick(&[lo, hi, 0]), 0)), "../../out/x"), file("ignored", b"")],
+        18 => vec![symlink("esc", "../out"), file("esc/x", &c)], // tar refuses to write through it
+        19 => vec![symlink("immutable/lnk", "."), file("immutable/lnk/viaself", &c)],
+        20 => vec![hardlink("immutable/copy.chunk", &format!("immutable/{}", trio_name(lo, 0)))],
+        21 => vec![hardlink("ledger/hl", &format!("immutable/{}", trio_name(lo, 0)))],
+        22 => vec![dir("volatile"), dir("immutable/emptydir"), dir("ledger/1/2")],
+        23 => vec![file(&format!("immutable/{}", trio_name(lo, 0)), b"second version")], // same path twice
+        24 => vec![symlink("protocolMagicId", "/verif-no-such-dir/x")],
+        _ => vec![symlink("ledger/123456", &format!("../immutable/{}", trio_name(lo, 0)))],
+    }
+}
+
+/// hostile changes to an honest ancillary archive; returns the new location
+fn hostile_anc(rng: &mut Rng, keys: &Keys, honest: &Loc, man: &[(String, String)], last: u64) -> Loc {
+    let mut l = honest.clone();
+    let victim = rng.pick(man).0.clone();
+    let vcontent = honest.entries.iter().find_map(|e| match (&e.kind, e.path == victim) {
+        (EK::File(c), true) => Some(c.clone()),
+        _ => None,
+    }).unwrap_or_default();
+    let replace_manifest = |l: &mut Loc, bytes: Vec<u8>| {
+        for e in l.entries.iter_mut() {
+            if e.path == MANIFEST {
+                e.kind = EK::File(bytes.clone());
+            }
+        }
+    };
+    match rng.below(22) {
+        0 => {
+            // content changed
+            for e in l.entries.iter_mut() {
+                if e.path == victim {
+                    e.kind = EK::File(b"CHANGED".to_vec());
+                }
+            }
+        }
+        1 => {
+            // manifest lists a file that is not there
+            let mut m = man.to_vec();
+            m.push(("ledger/ghost".into(), sha256_hex(b"ghost")));
+            replace_manifest(&mut l, manifest_json(keys, &m, SigKind::Genuine));
+        }
+        2 => {
+            // a file the (genuine) manifest does not list
+            l.entries.push(file("ledger/unlisted", b"UNLISTED"));
+            l.entries.push(file("unlisted-top", b"UNLISTED"));
+        }
+        3 => replace_manifest(&mut l, manifest_json(keys, man, SigKind::Altered)),
+        4 => replace_manifest(&mut l, manifest_json(keys, man, SigKind::Missing)),
+        5 => replace_manifest(&mut l, manifest_json(keys, man, SigKind::OtherKey)),
+        6 => {
+            // mirror's own manifest for its own files, signed with its own key
+            let mut m = man.to_vec();
+            m.push(("ledger/evil".into(), sha256_hex(b"EVIL")));
+            l.entries.push(file("ledger/evil", b"EVIL"));
+            replace_manifest(&mut l, manifest_json(keys, &m, SigKind::OtherKey));
+        }
+        7 => replace_manifest(&mut l, b"{ not json".to_vec()),
+        8 => l.entries.retain(|e| e.path != MANIFEST),
+        9 => {
+            // symbolic link under a vouched path, the genuine content parked elsewhere in the archive
+            l.entries.retain(|e| e.path != victim);
+            l.entries.push(file("parked/genuine", &vcontent));
+            let ups = "../".repeat(victim.matches('/').count());
+            l.entries.push(symlink(&victim, &format!("{}parked/genuine", ups)));
+        }
+        10 => {
+            // the same, parked where the target directory has a certified file of its own
+            l.entries.retain(|e| e.path != victim);
+            let park = format!("immutable/{}", trio_name(last, 0));
+            l.entries.push(file(&park, &vcontent));
+            let ups = "../".repeat(victim.matches('/').count());
+            l.entries.push(symlink(&victim, &format!("{}{}", ups, park)));
+        }
+        11 => {
+            // hard link under a vouched path
+            l.entries.retain(|e| e.path != victim);
+            l.entries.push(file("parked/genuine", &vcontent));
+            l.entries.push(hardlink(&victim, "parked/genuine"));
+        }
+        12 => {
+            // the parent directory of the vouched paths is a symbolic link
+            let top = victim.split('/').next().unwrap().to_string();
+            let mut moved = vec![];
+            for e in l.entries.iter_mut() {
+                if e.path.starts_with(&format!("{}/", top)) {
+                    e.path = format!("real-{}", e.path);
+                    moved.push(());
+                }
+            }
+            l.entries.push(symlink(&top, &format!("real-{}", top)));
+        }
+        13 => {
+            // dangling link under a vouched path
+            l.entries.retain(|e| e.path != victim);
+            l.entries.push(symlink(&victim, "/verif-no-such-dir/x"));
+        }
+        14 => {
+            // the manifest itself is a link to a parked copy
+            let mbytes = manifest_json(keys, man, SigKind::Genuine);
+            l.entries.retain(|e| e.path != MANIFEST);
+            l.entries.push(file("parked/manifest", &mbytes));
+            l.entries.push(symlink(MANIFEST, "parked/manifest"));
+        }
+        15 => l.entries.push(file("../escape-anc", b"x")),
+        16 => l.entries.push(symlink("esc", "../..")),
+        17 => {
+            l.entries.push(symlink("esc", "../../out"));
+            l.entries.push(file("esc/from-anc", b"x"));
+        }
+        18 => l.intact = false,
+        19 => {
+            // vouched path is a directory in the archive
+            l.entries.retain(|e| e.path != victim);
+            l.entries.push(file(&format!("{}/inner", victim), b"x"));
+        }
+        20 => {
+            // entries added to and removed from the signed manifest without re-signing
+            let mut m = man.to_vec();
+            m.remove(0);
+            m.push(("ledger/added".into(), sha256_hex(b"ADDED")));
+            l.entries.push(file("ledger/added", b"ADDED"));
+            let data: BTreeMap<PathBuf, String> = man.iter().map(|(p, h)| (PathBuf::from(p), h.clone())).collect();
+            let mut signed = AncillaryFilesManifest::new_without_signature(data);
+            let sig = keys.genuine.sign(&signed.compute_hash());
+            let data2: BTreeMap<PathBuf, String> = m.iter().map(|(p, h)| (PathBuf::from(p), h.clone())).collect();
+            signed = AncillaryFilesManifest::new(data2, sig);
+            replace_manifest(&mut l, serde_json::to_vec(&signed).unwrap());
+        }
+        _ => {
+            // duplicate entry for the vouched path: the later one wins
+            l.entries.push(file(&victim, b"LATER VERSION"));
+        }
+    }
+    l
+}
+
+fn base_case(rng: &mut Rng, keys: &Keys) -> (Case, Vec<(String, String)>) {
+    let last = rng.range(1, 5);
+    let anc = rng.chance(1, 2);
+    let range = gen_range(rng, last, anc);
+    let mut imm = BTreeMap::new();
+    if let Some((lo, hi)) = range.bounds(last) {
+        for n in lo..=hi {
+            imm.insert(n, vec![honest_imm(rng, n)]);
+        }
+    }
+    let (anc_loc, man) = honest_anc(rng, keys, last);
+    let case = Case {
+        pre: vec![],
+        range,
+        last,
+        allow_override: true,
+        include_ancillary: anc,
+        verifier_set: true,
+        network: rng.pick(&["preview", "mainnet", "preprod", "devnet", "private", "testnet"]).to_string(),
+        imm,
+        anc: if anc { vec![anc_loc] } else { vec![] },
+        parallel: 1,
+    };
+    (case, man)
+}
+
+fn main() {
+    let args = Args::parse();
+    let mut sink = Sink::new(&args);
+    let mut rng = Rng::new(args.seed ^ 0xC19);
+    hutil::quiet_panics();
+    let scratch = Scratch::new("verif-c19");
+    let rt = tokio::runtime::Builder::new_multi_thread().worker_threads(2).enable_all().build().unwrap();
+    let keys = Keys { genuine: ManifestSigner::create_deterministic_signer(), other: ManifestSigner::create_non_deterministic_signer() };
+    let gvk = fake_keys::genesis_verification_key()[0];
+    #[allow(deprecated)]
+    let with_key = ClientBuilder::aggregator("http://127.0.0.1:9/", gvk)
+        .set_ancillary_verification_key(keys.genuine.verification_key().to_json_hex().unwrap())
+        .build()
+        .unwrap();
+    #[allow(deprecated)]
+    let without_key = ClientBuilder::aggregator("http://127.0.0.1:9/", gvk).build().unwrap();
+    let ctx = Ctx { rt, with_key, without_key, scratch, keys };
+    let keys = &ctx.keys;
+
+    // ---------------- corpus: witnesses ----------------
+    let genuine: &[u8] = b"GENUINE LEDGER STATE";
+    let man = vec![("ledger/123456".to_string(), sha256_hex(genuine))];
+    let trio = |n: u64, c: &[u8]| -> Vec<Ent> { (0..3).map(|e| file(&format!("immutable/{}", trio_name(n, e)), c)).collect() };
+    let imm3 = |extra2: Vec<Ent>| -> BTreeMap<u64, Vec<Loc>> {
+        (1..=3u64)
+            .map(|n| {
+                let mut es = trio(n, format!("chunk {}", n).as_bytes());
+                if n == 2 {
+                    es.extend(extra2.clone());
+                }
+                (n, vec![Loc { present: true, intact: true, entries: es }])
+            })
+            .collect()
+    };
+    let mk = |imm: BTreeMap<u64, Vec<Loc>>, anc: Vec<Loc>, range: R, include: bool| Case {
+        pre: vec![],
+        range,
+        last: 3,
+        allow_override: true,
+        include_ancillary: include,
+        verifier_set: true,
+        network: "preview".into(),
+        imm,
+        anc,
+        parallel: 1,
+    };
+    // (1) FIXED: the vouched path is a symbolic link; genuine content parked in the archive, hostile content
+    //     placed at the same relative place of the target by an immutable archive of the same mirror
+    let anc1 = Loc { present: true, intact: true, entries: vec![
+        file(MANIFEST, &manifest_json(keys, &man, SigKind::Genuine)),
+        file("payload/state", genuine),
+        symlink("ledger/123456", "../payload/state"),
+    ] };
+    let c1 = mk(imm3(vec![file("payload/state", b"HOSTILE LEDGER STATE")]), vec![anc1], R::Range(1, 3), true);
+    if let Some(o) = emit(&ctx, &mut sink, "corpus.symlink", &c1) {
+        let rep = o.ok && o.post.get("db/ledger/123456").map(|n| matches!(n, Node::Link(_))).unwrap_or(false);
+        sink.witness("C19-symlink-vouched-path", rep, &format!("genuine signed manifest, ledger/123456 -> ../payload/state, hostile payload/state from immutable archive 2: {} ledger/123456={:?}", if o.ok { "Ok" } else { "Err" }, o.post.get("db/ledger/123456")));
+    }
+    // (1b) the same without any foreign entry: the link resolves, in the target, to a certified immutable file
+    let anc1b = Loc { present: true, intact: true, entries: vec![
+        file(MANIFEST, &manifest_json(keys, &man, SigKind::Genuine)),
+        file("immutable/00002.chunk", genuine),
+        symlink("ledger/123456", "../immutable/00002.chunk"),
+    ] };
+    let c1b = mk(imm3(vec![]), vec![anc1b], R::Range(1, 3), true);
+    if let Some(o) = emit(&ctx, &mut sink, "corpus.symlink2", &c1b) {
+        let rep = o.sfails.iter().any(|(c, _)| c == "vouched-content-mismatch");
+        sink.witness("C19-symlink-vouched-path-2", rep, &format!("ledger/123456 -> ../immutable/00002.chunk with the genuine content parked at immutable/00002.chunk of the ancillary archive: {} ledger/123456={:?}", if o.ok { "Ok" } else { "Err" }, o.post.get("db/ledger/123456")));
+    }
+    // (2) KNOWN: immutable archive entries outside `immutable/`
+    let c2 = mk(imm3(vec![file("ledger/123456", b"HOSTILE"), file("volatile/blocks-0.dat", b"HOSTILE"), file("clean", b"x")]), vec![], R::Range(1, 3), false);
+    if let Some(o) = emit(&ctx, &mut sink, "corpus.foreign", &c2) {
+        let rep = o.post.contains_key("db/ledger/123456") && o.post.contains_key("db/volatile/blocks-0.dat");
+        sink.witness("C19-foreign-entry", rep, &format!("immutable archive 2 also carries ledger/123456 and volatile/blocks-0.dat, Range(1,3), no ancillary: {} and both files are in the target", if o.ok { "Ok" } else { "Err" }));
+    }
+    // (3) KNOWN: trio numbers outside the requested range
+    let mut c3 = mk(imm3(vec![file("immutable/00000.chunk", b"OLD"), file("immutable/00003.primary", b"NEXT")]), vec![], R::Range(1, 2), false);
+    c3.imm.remove(&3);
+    if let Some(o) = emit(&ctx, &mut sink, "corpus.range", &c3) {
+        let rep = o.post.contains_key("db/immutable/00000.chunk") && o.post.contains_key("db/immutable/00003.primary");
+        sink.witness("C19-trio-outside-range", rep, &format!("Range(1,2) of a database ending at 3, immutable archive 2 also carries immutable/00000.chunk and immutable/00003.primary: {} and both are in the target", if o.ok { "Ok" } else { "Err" }));
+    }
+    // (4) KNOWN: entries of `immutable/` are kept by name only
+    let mut c4 = mk(imm3(vec![file("immutable/00000.primary/evil.bin", b"NESTED"), symlink("immutable/00000.chunk", "../../out/x")]), vec![], R::Range(1, 2), false);
+    c4.imm.remove(&3);
+    if let Some(o) = emit(&ctx, &mut sink, "corpus.byname", &c4) {
+        let rep = o.post.contains_key("db/immutable/00000.primary/evil.bin") && matches!(o.post.get("db/immutable/00000.chunk"), Some(Node::Link(_)));
+        sink.witness("C19-immutable-entry-kept-by-name", rep, &format!("immutable archive 2 also carries immutable/00000.primary/evil.bin and a symbolic link immutable/00000.chunk: {} and both are in the target", if o.ok { "Ok" } else { "Err" }));
+    }
+
+    // ---------------- generated ----------------
+    let n = if args.thorough() { 3000 } else { 330 };
+    for k in 0..n {
+        let (mut case, man) = base_case(&mut rng, keys);
+        let bounds = case.range.bounds(case.last);
+        let (lo, hi) = bounds.unwrap_or((0, case.last));
+        let mut tag = "honest".to_string();
+        case.pre = gen_pre(&mut rng, case.last);
+        if case.pre.iter().any(|p| matches!(p, Pre::File(f, _) | Pre::Dir(f) if f.starts_with("db/immutable"))) && rng.chance(1, 3) {
+            case.allow_override = false;
+        } else if rng.chance(1, 8) {
+            case.allow_override = false;
+        }
+        match k % 6 {
+            0 => {}
+            1 | 2 => {
+                // hostile immutable archives
+                tag = "hostile-immutable".into();
+                for _ in 0..rng.range(1, 2) {
+                    let extra = hostile_imm_entries(&mut rng, lo, hi, case.last);
+                    if let Some(n) = case.imm.keys().nth(rng.below(case.imm.len().max(1) as u64) as usize).cloned() {
+                        let l = &mut case.imm.get_mut(&n).unwrap()[0];
+                        if rng.bool() {
+                            l.entries.extend(extra);
+                        } else {
+                            let mut e2 = extra;
+                            e2.extend(l.entries.clone());
+                            l.entries = e2;
+                        }
+                    }
+                }
+            }
+            3 => {
+                // hostile ancillary
+                tag = "hostile-ancillary".into();
+                if !case.include_ancillary {
+                    case.include_ancillary = true;
+                    let (l, _) = honest_anc(&mut rng, keys, case.last);
+                    case.anc = vec![l];
+                    case.range = gen_range(&mut rng, case.last, true);
+                    case.imm.clear();
+                    if let Some((lo, hi)) = case.range.bounds(case.last) {
+                        for n in lo..=hi {
+                            case.imm.insert(n, vec![honest_imm(&mut rng, n)]);
+                        }
+                    }
+                }
+                let honest = case.anc[0].clone();
+                let man2: Vec<(String, String)> = {
+                    // re-derive the manifest entries of this archive
+                    let m: AncillaryFilesManifest = serde_json::from_slice(honest.entries.iter().find_map(|e| match (&e.kind, e.path == MANIFEST) {
+                        (EK::File(c), true) => Some(c.as_slice()),
+                        _ => None,
+                    }).unwrap()).unwrap();
+                    m.signable_manifest.data.iter().map(|(p, h)| (p.to_string_lossy().to_string(), h.clone())).collect()
+                };
+                case.anc = vec![hostile_anc(&mut rng, keys, &honest, &man2, case.last)];
+                if rng.chance(1, 5) {
+                    // with a hostile immutable archive as accomplice
+                    let extra = hostile_imm_entries(&mut rng, lo, hi, case.last);
+                    if let Some(l) = case.imm.values_mut().next() {
+                        l[0].entries.extend(extra);
+                    }
+                }
+            }
+            4 => {
+                // faults: pre-existing shapes, broken or missing archives, fallback locations, missing key
+                tag = "fault".into();
+                match rng.below(7) {
+                    0 | 1 => case.pre.extend(gen_fault(&mut rng, &man)),
+                    2 => {
+                        if let Some(l) = case.imm.values_mut().last() {
+                            l[0].intact = false;
+                        }
+                    }
+                    3 => {
+                        if let Some(l) = case.imm.values_mut().next() {
+                            l[0].present = false;
+                        }
+                    }
+                    4 => {
+                        // first location breaks after a hostile entry, second is honest
+                        if let Some((n, l)) = case.imm.iter_mut().next() {
+                            let mut broken = l[0].clone();
+                            broken.entries.truncate(2);
+                            broken.entries.insert(0, file("ledger/from-broken-archive", b"x"));
+                            broken.intact = false;
+                            let good = honest_imm(&mut rng, *n);
+                            *l = vec![broken, good];
+                        }
+                    }
+                    5 => case.verifier_set = false,
+                    _ => {
+                        if !case.anc.is_empty() {
+                            let good = case.anc[0].clone();
+                            let mut bad = good.clone();
+                            bad.intact = false;
+                            bad.entries.push(file("ledger/from-broken-ancillary", b"x"));
+                            case.anc = vec![bad, good];
+                        }
+                    }
+                }
+                // stale pre-existing pieces must not clash with the generated tree shape
+                let mut seen = BTreeSet::new();
+                case.pre.retain(|p| {
+                    let k = match p {
+                        Pre::Dir(d) => d.clone(),
+                        Pre::File(f, _) => f.clone(),
+                        Pre::Link(l, _) => l.clone(),
+                    };
+                    seen.insert(k)
+                });
+            }
+            _ => {
+                // both
+                tag = "hostile-both".into();
+                let extra = hostile_imm_entries(&mut rng, lo, hi, case.last);
+                if let Some(l) = case.imm.values_mut().last() {
+                    l[0].entries.extend(extra);
+                }
+                if case.include_ancillary {
+                    let honest = case.anc[0].clone();
+                    case.anc = vec![hostile_anc(&mut rng, keys, &honest, &man, case.last)];
+                }
+            }
+        }
+        if !pre_consistent(&case.pre) {
+            case.pre.clear();
+        }
+        emit(&ctx, &mut sink, &tag, &case);
+    }
+    sink.note("parallelism", "max_parallel_downloads = 1 in every compared case (the order of the archives is then fixed)");
+    sink.note("user", &format!("uid {}", unsafe_uid()));
+    let Ctx { scratch, .. } = ctx;
+    drop(scratch);
+    sink.finish();
+}
+
+fn unsafe_uid() -> String {
+    std::fs::read_to_string("/proc/self/status")
+        .ok()
+        .and_then(|s| s.lines().find(|l| l.starts_with("Uid:")).map(|l| l.split_whitespace().nth(1).unwrap_or("?").to_string()))
+        .unwrap_or_else(|| "?".into())
+}
+
+/// no pre-existing path may need another one to be both a file/link and a directory
+fn pre_consistent(pre: &[Pre]) -> bool {
+    let mut nondirs = BTreeSet::new();
+    let mut all = BTreeSet::new();
+    for p in pre {
+        match p {
+            Pre::Dir(d) => {
+                all.insert(d.clone());
+            }
+            Pre::File(f, _) | Pre::Link(f, _) => {
+                if !all.insert(f.clone()) {
+                    return false;
+                }
+                nondirs.insert(f.clone());
+            }
+        }
+    }
+    for p in &all {
+        for nd in &nondirs {
+            if p != nd && p.starts_with(&format!("{}/", nd)) {
+                return false;
+            }
+        }
+    }
+    for p in pre {
+        if let Pre::Dir(d) = p {
+            if nondirs.contains(d) {
+                return false;
+            }
+        }
+    }
+    true
+}
